@@ -314,19 +314,21 @@ func (r *slRun) createInBlock(gn, id string, twice bool) {
 // probe: two blocks are held, a plugin is waiting to be synchronised, the first block is released
 // TWICE while the second is in the middle of a creation (request relayed, bookkeeping not yet done).
 // The plugin must stay blocked until the second block is released.
-func (r *slRun) probe(startPlugin func(j int) chan error) {
+func (r *slRun) probe(startPlugin func(j int) chan error) (pending chan error) {
 	ba := r.acquire("ga")
 	bb := r.acquire("gb")
 	started := startPlugin(0)
-	// stub.Start returns once the plugin is configured: the runtime is now about to request the
-	// exclusive section (whether it has reached the lock yet does not matter for what follows)
+	// stub.Start returns once the plugin is configured: the runtime is then about to request the
+	// exclusive section.  Whether it has got that far does not matter for what follows (no property
+	// says that a plugin is configured while blocks are held): after a short wait the scenario goes on
+	// and the result of Start is collected at the end of the run.
 	select {
 	case err := <-started:
 		if err != nil {
 			r.herr.Store(fmt.Errorf("stub 0 start: %w", err))
 		}
-	case <-time.After(30 * time.Second):
-		r.violation("the plugin connecting while two sync blocks are held was not configured within 30s")
+	case <-time.After(2 * time.Second):
+		pending = started
 	}
 	time.Sleep(5 * time.Millisecond)
 	r.create("gb", "gb-c0")
@@ -340,6 +342,7 @@ func (r *slRun) probe(startPlugin func(j int) chan error) {
 	}
 	r.keep("gb", "gb-c0")
 	r.release("gb", bb)
+	return pending
 }
 
 // buildCase: call with r.mu held.
@@ -483,11 +486,19 @@ func oneSyncLockRun(spec slSpec, out string) (*slCase, error) {
 		return ch
 	}
 	first := 0
-	if spec.Probe {
-		r.probe(startPlugin)
-		first = 1
-	}
 	var pwg sync.WaitGroup
+	if spec.Probe {
+		first = 1
+		if pending := r.probe(startPlugin); pending != nil {
+			pwg.Add(1)
+			go func() {
+				defer pwg.Done()
+				if err := <-pending; err != nil {
+					r.herr.Store(fmt.Errorf("stub 0 start: %w", err))
+				}
+			}()
+		}
+	}
 	for j := first; j < P; j++ {
 		pwg.Add(1)
 		go func(j int) {
